@@ -351,7 +351,7 @@ def kernel_cases(ctx, N):
 
 def run(ctx):
     import numdifftools as nd
-    proof_stage(ctx, 'Props/C02.v')
+    proof_stage(ctx, ['Props/C02.v', 'Props/C02b.v'])
     kc, kd = kernel_cases(ctx, ctx.n(300, 3000))
     kitems = [('C02_K_%d' % s_, KHDR + 'Definition cases := [\n' + ';\n'.join(kc[s_:s_ + 300]) + '].\nEval vm_compute in (List.length cases, failing okK cases).\n') for s_ in range(0, len(kc), 300)]
     kbad = 0
@@ -451,6 +451,6 @@ def run(ctx):
     ctx.assumptions += ['PARTIAL: proved = the estimate is non-negative for every input and branch and belongs to the returned value (same index); "true error <= K x estimate + floor" is NOT a theorem for any finite-sample estimator: explored by the sweep with K = 1e4, floor = 1e-9 x local scale (calibrated on the unchanged tree, worst observed ratio 3.6e2)',
                         'every constant of the estimator (12.7062047361747, EPS*10, tol*10, trim 10, 1.5 IQR, 1e-8, the tie rule) is pinned in the model: changing one breaks the bit-exact tie',
                         'Hessian records are checked for self-consistency and honesty only (its stencil output bypasses LogRule._apply)']
-    return ctx.finish(level='proof', checker_cmd='make -C coq Props/C02.vo + coqc build/cases/C02_*.v',
+    return ctx.finish(level='proof', checker_cmd='make -C coq Props/C02.vo Props/C02b.vo + coqc build/cases/C02_*.v',
                       rule='records of all five classes x 5 methods x dims 1..4 x orders x default/user steps: self-consistency clauses + bit-exact tie of (value, error_estimate, final_step, index); honesty sweep over expression programs and the exp/sin/quadratic family; '
                            'distinct = (kind, class or method, n) combinations hit')
